@@ -550,6 +550,7 @@ def check_c04(tier):
         # Mirror / DefKeyed are inductive invariants of MirrorInd.tla (Apalache), which History.tla refines (RefinesMirrorInd)
         import apalache
         cov["apalache_inductive_invariant"] = apalache.mirror_inductive()
+        cov["tlaps_inductive_invariant"] = apalache.mirror_tlaps()
     return V.finish(
         coverage_extra=cov,
         rule="every (layout, order) of spec/Layouts.tla (layout table and override-chain table) replayed; for every definition D: references(D) == "
